@@ -45,7 +45,9 @@ SimEnv ==
   \/ /\ WithAbort /\ bud.abort = 0 /\ Abort /\ Log([op |-> "cmd", t |-> "abort"])
      /\ bud' = [bud EXCEPT !.abort = 1] /\ UNCHANGED subm
   \/ /\ bud.peer < MaxPeer /\ s.conn = "open"
-     /\ \E f \in PeerFrames : PeerBytes(f) /\ Log([op |-> "peer", kind |-> FrameKind(f), fc |-> s.cur.req.fc])
+     /\ \E f \in PeerFrames : /\ PeerBytes(f)
+                              /\ IF Mode = "serial" THEN Log([op |-> "peerbytes", bytes |-> f])
+                                 ELSE Log([op |-> "peer", kind |-> FrameKind(f), fc |-> s.cur.req.fc])
      /\ bud' = [bud EXCEPT !.peer = @ + 1] /\ UNCHANGED subm
   \/ /\ bud.faults = 0 /\ s.conn = "open"
      /\ \/ PeerClose /\ Log([op |-> "eof"])
@@ -56,6 +58,9 @@ SimEnv ==
   \/ /\ Mode = "task" /\ s.attempts <= MaxAttempts
      /\ \E res \in {"ok", "err"} : ConnectorResult(res) /\ Log([op |-> "connector", res |-> res])
      /\ UNCHANGED <<bud, subm>>
+  \/ /\ Mode = "serial" /\ s.attempts <= MaxAttempts /\ bud.cmds < MaxCmds
+     /\ PortSet(~s.portOk) /\ Log([op |-> "port", ok |-> ~s.portOk])
+     /\ bud' = [bud EXCEPT !.cmds = @ + 1] /\ UNCHANGED subm
   \/ /\ Mode = "session" /\ s.attempts < MaxAttempts /\ NewConnection /\ Log([op |-> "new_conn"])
      /\ UNCHANGED <<bud, subm>>
 
